@@ -939,8 +939,9 @@ pub(crate) fn eval<
                 } else {
                     AB::Expr::ZERO
                 };
+                // Not gated by `when_transition`: the window (last row, row 0) is the only one in
+                // which table row 0 is the `next` row, and a sponge chain may start there.
                 builder
-                    .when_transition()
                     .when(next_new_start)
                     .when(not_merkle.clone())
                     .assert_zero(next_in[slot * D + d] - tag);
